@@ -256,7 +256,7 @@ func genShape() *rapid.Generator[friShape] {
 		s.NumConstants = uint64(rapid.IntRange(1, 3).Draw(t, "consts"))
 		s.NumRoutedWires = uint64(rapid.IntRange(1, 4).Draw(t, "routed"))
 		s.NumWires = s.NumRoutedWires + uint64(rapid.IntRange(0, 3).Draw(t, "adv"))
-		s.NumChallenges = uint64(rapid.IntRange(1, 2).Draw(t, "challenges"))
+		s.NumChallenges = uint64(rapid.IntRange(1, 4).Draw(t, "challenges"))
 		s.NumPartialProducts = uint64(rapid.IntRange(0, 2).Draw(t, "pp"))
 		s.QDF = uint64(rapid.IntRange(1, 3).Draw(t, "qdf"))
 		return s
